@@ -185,12 +185,12 @@ class DaemonObject(object):
             return next(stream)
         except Exception:
             # in case of error (or StopIteration!) the stream is removed
-            del self.daemon.streaming_responses[streamId]
+            self.daemon.streaming_responses.pop(streamId, None)
             raise
 
     def close_stream(self, streamId):
         if streamId in self.daemon.streaming_responses:
-            del self.daemon.streaming_responses[streamId]
+            self.daemon.streaming_responses.pop(streamId, None)
 
 
 class Daemon(object):
@@ -540,7 +540,7 @@ class Daemon(object):
             for streamId in list(self.streaming_responses):
                 info = self.streaming_responses.get(streamId, None)
                 if info and info[0] is conn:
-                    del self.streaming_responses[streamId]
+                    self.streaming_responses.pop(streamId, None)
         self.clientDisconnect(conn)  # user overridable hook
 
     def _housekeeping(self):
@@ -558,7 +558,7 @@ class Daemon(object):
                         if info:
                             last_use_period = time.time() - info[1]
                             if 0 < config.ITER_STREAM_LIFETIME < last_use_period:
-                                del self.streaming_responses[streamId]
+                                self.streaming_responses.pop(streamId, None)
                 if config.ITER_STREAM_LINGER > 0:
                     # cleanup iter streams that are past their linger time
                     for streamId in list(self.streaming_responses.keys()):
@@ -566,7 +566,7 @@ class Daemon(object):
                         if info and info[2]:
                             linger_period = time.time() - info[2]
                             if linger_period > config.ITER_STREAM_LINGER:
-                                del self.streaming_responses[streamId]
+                                self.streaming_responses.pop(streamId, None)
             self.housekeeping()
 
     def housekeeping(self):
